@@ -89,7 +89,9 @@ Record case := {
   k_sets : list (N * list member);        (* contents of the IP sets the rule names *)
   k_impl : list irule;                    (* the REAL renderer's rules, parsed from their rendered text *)
   k_impl_splits : list (list (list port_range));   (* real SplitPortList on src, dst, !src, !dst ports *)
-  k_packets : list packet                 (* boundary packets, all of version k_ver *)
+  k_packets : list packet;                (* boundary packets, all of version k_ver *)
+  k_input_mutated : bool                  (* the renderer changed the proto.Rule it was given (it is shared:
+                                             the same message is rendered for IPv4 and for IPv6) *)
 }.
 
 Definition case_env (k : case) : env :=
@@ -109,7 +111,9 @@ Definition check_case (k : case) : bool * bool :=
                       || ok_outcome c (e_sets e) r p (run_flat e (k_impl k) p)) (k_packets k)
     && forallb (fun ps => split_ok (fst ps) (snd ps))
          (List.combine [r_src_ports r; r_dst_ports r; r_not_src_ports r; r_not_dst_ports r] (k_impl_splits k))
-    && Nat.eqb (length (k_impl_splits k)) 4 ).
+    && Nat.eqb (length (k_impl_splits k)) 4
+    (* rendering must not change its input: the same rule object is rendered once per IP version *)
+    && negb (k_input_mutated k) ).
 
 (* ------------------------------------------------------------------ known-finding classification *)
 (* A failing case counts as the known defect "scratch-bit-third-positive-block" only if ALL of:
@@ -153,6 +157,7 @@ Definition classify_case (k : case) : bool * bool :=
                            || scratch_class_packet c e r r' (k_impl k) p) (k_packets k)
       && forallb (fun ps => split_ok (fst ps) (snd ps))
            (List.combine [r_src_ports r; r_dst_ports r; r_not_src_ports r; r_not_dst_ports r] (k_impl_splits k))
-      && Nat.eqb (length (k_impl_splits k)) 4,
+      && Nat.eqb (length (k_impl_splits k)) 4
+      && negb (k_input_mutated k),
       false)
   end.
